@@ -444,3 +444,86 @@ Proof.
   - destruct c, h; cbn; intros; try discriminate; tauto.
   - intros [[-> ->]|[[-> [->| ->]]|[-> ->]]]; reflexivity.
 Qed.
+
+(* ------------------------------------------------------------------ *)
+(* further consequences                                                 *)
+
+(* one byte string per raw signature and one raw signature per byte string *)
+Lemma ecdsa_frame_inj k r s r' s' sig :
+  ecdsa_frame k r s = Some sig -> ecdsa_frame k r' s' = Some sig ->
+  sig_fits k r s -> sig_fits k r' s' -> r = r' /\ s = s'.
+Proof.
+  unfold ecdsa_frame, ecdsa_encode, sig_fits. destruct (ek_enc k).
+  - intros H1 H2 F1 F2. injection H1 as H1. injection H2 as H2. rewrite <- H2 in H1.
+    apply app_inv_head in H1.
+    assert (E1 : parse_sig (der_encode_N r s) = Some (r, s))
+      by (apply parse_sig_iff; [apply der_encode_wf; exact F1|auto]).
+    assert (E2 : parse_sig (der_encode_N r' s') = Some (r', s'))
+      by (apply parse_sig_iff; [apply der_encode_wf; exact F2|auto]).
+    rewrite H1 in E1. rewrite E1 in E2. split; congruence.
+  - intros H1 H2 _ _.
+    destruct (p1363_encode (ek_curve k) r s) as [e1|] eqn:E1; [|discriminate].
+    destruct (p1363_encode (ek_curve k) r' s') as [e2|] eqn:E2; [|discriminate].
+    injection H1 as H1. injection H2 as H2. rewrite <- H2 in H1. apply app_inv_head in H1. subst e2.
+    apply p1363_roundtrip in E1, E2. rewrite E1 in E2. split; congruence.
+Qed.
+
+(* a different 5-byte prefix (other variant start byte or other key id) is rejected *)
+Lemma has_prefix_other p p' t : length p = length p' -> p <> p' -> has_prefix p' (p ++ t) = false.
+Proof.
+  intros Hl Hn. unfold has_prefix. rewrite <- Hl.
+  rewrite firstn_app, Nat.sub_diag, firstn_all, firstn_O, app_nil_r.
+  destruct (beq p p') eqn:E; [|reflexivity]. apply beq_eq in E. contradiction.
+Qed.
+
+Definition with_variant (k : ecdsa_key) (v : variant) (id : N) : ecdsa_key :=
+  {| ek_curve := ek_curve k; ek_hash := ek_hash k; ek_enc := ek_enc k;
+     ek_variant := v; ek_id := id; ek_pub := ek_pub k |}.
+
+Lemma ecdsa_other_prefix_rejected H raw k v' id' sig msg :
+  ecdsa_verify H raw k sig msg = Ok tt ->
+  ek_variant k <> VRaw -> v' <> VRaw ->
+  prefix (ek_variant k) (ek_id k) <> prefix v' id' ->
+  ecdsa_verify H raw (with_variant k v' id') sig msg = Err.
+Proof.
+  intros Hv Hr Hr' Hp. unfold ecdsa_verify in Hv.
+  destruct (has_prefix (prefix (ek_variant k) (ek_id k)) sig) eqn:E; [|discriminate].
+  apply has_prefix_true in E. destruct E as [t ->].
+  unfold ecdsa_verify, with_variant. cbn [ek_variant ek_id].
+  rewrite has_prefix_other; [reflexivity| |exact Hp].
+  rewrite !prefix_length. destruct (ek_variant k), v'; try reflexivity; contradiction.
+Qed.
+
+(* LEGACY = CRUNCHY over the message with 0x00 appended *)
+Lemma ecdsa_legacy_is_crunchy H raw k id sig msg :
+  ecdsa_verify H raw (with_variant k VLegacy id) sig msg =
+  ecdsa_verify H raw (with_variant k VCrunchy id) sig (msg ++ [0]).
+Proof. unfold ecdsa_verify, with_variant. cbn [ek_variant ek_id ek_enc ek_curve ek_pub ek_hash prefix suffix]. rewrite app_nil_r. reflexivity. Qed.
+
+Lemma ed25519_legacy_is_crunchy ed_raw id pub sig msg :
+  ed25519_verify ed_raw VLegacy id pub sig msg = ed25519_verify ed_raw VCrunchy id pub sig (msg ++ [0]).
+Proof. unfold ed25519_verify. cbn [prefix suffix]. rewrite app_nil_r. reflexivity. Qed.
+
+Definition rsa_with_variant (k : rsa_key) (v : variant) : rsa_key :=
+  {| rk_hash := rk_hash k; rk_variant := v; rk_id := rk_id k; rk_n := rk_n k; rk_e := rk_e k; rk_salt := rk_salt k |}.
+
+Lemma rsa_legacy_is_crunchy H pkcs1_raw pss_raw k sig msg :
+  pkcs1_verify H pkcs1_raw (rsa_with_variant k VLegacy) sig msg =
+  pkcs1_verify H pkcs1_raw (rsa_with_variant k VCrunchy) sig (msg ++ [0]) /\
+  pss_verify H pss_raw (rsa_with_variant k VLegacy) sig msg =
+  pss_verify H pss_raw (rsa_with_variant k VCrunchy) sig (msg ++ [0]).
+Proof.
+  unfold pkcs1_verify, pss_verify, rsa_with_variant.
+  cbn [rk_variant rk_id rk_hash rk_n rk_e rk_salt prefix suffix]. rewrite app_nil_r. split; reflexivity.
+Qed.
+
+(* the curve-less decoder of signature/subtle accepts the three sizes only *)
+Lemma p1363_decode_any_lengths b r s :
+  p1363_decode_any b = Ok (r, s) -> length b = 64%nat \/ length b = 96%nat \/ length b = 132%nat.
+Proof.
+  unfold p1363_decode_any. intros H.
+  destruct (Nat.eqb (length b) 64) eqn:E1; [apply Nat.eqb_eq in E1; auto|].
+  destruct (Nat.eqb (length b) 96) eqn:E2; [apply Nat.eqb_eq in E2; auto|].
+  destruct (Nat.eqb (length b) 132) eqn:E3; [apply Nat.eqb_eq in E3; auto|].
+  cbn in H. discriminate.
+Qed.
